@@ -3432,18 +3432,9 @@ func genAdapterSources() string {
 					if sortFns[name] && len(v.Args) > 0 {
 						cmp := ""
 						if len(v.Args) > 1 {
-							if fl, ok := v.Args[1].(*ast.FuncLit); ok {
-								var rets []string
-								ast.Inspect(fl.Body, func(y ast.Node) bool {
-									if r, ok := y.(*ast.ReturnStmt); ok && len(r.Results) == 1 {
-										rets = append(rets, exprText(r.Results[0]))
-									}
-									return true
-								})
-								cmp = strings.Join(rets, " | ")
-							} else {
-								cmp = exprText(v.Args[1])
-							}
+							// what the comparator READS besides its own parameters and locals, followed through static calls of
+							// functions of the same package — the same for a closure, a named function or any split of either
+							cmp = "reads: " + strings.Join(comparatorReads(filepath.Dir(fn), v.Args[1]), ",")
 						}
 						sorts = append(sorts, "("+leanStr(where)+", "+leanStr(name)+", "+leanStr(exprText(v.Args[0]))+", "+leanStr(cmp)+")")
 					}
@@ -3454,12 +3445,129 @@ func genAdapterSources() string {
 	}
 	var sb strings.Builder
 	sb.WriteString(header)
-	sb.WriteString("/-- every sort call in caddyconfig/** and modules/**/caddyfile.go: (file:function, sort function, what is sorted,\n    the expressions a comparator literal returns, joined by ` | `; empty for the plain sorts) -/\n")
+	sb.WriteString("/-- every sort call in caddyconfig/** and modules/**/caddyfile.go: (file:function, sort function, what is sorted,\n    `reads: v,w,…` = the variables the comparator reads that are neither its parameters nor its locals — captured\n    variables of a closure and package-level variables, collected through every function of the same package it\n    calls statically, sorted; empty for the plain sorts, which take no comparator) -/\n")
 	sb.WriteString("def adapterSortCalls : List (String × String × String × String) := [\n  " + strings.Join(sorts, ",\n  ") + "]\n")
 	sb.WriteString("\n/-- every read of the environment, the clock, randomness or a directory listing, every maps.Keys / maps.Values call and\n    every `go` statement in the same files: (file:function, what) -/\n")
 	sb.WriteString("def adapterOutsideInputs : List (String × String) := [\n  " + strings.Join(sources, ",\n  ") + "]\n")
 	sb.WriteString(footer)
 	return sb.String()
+}
+
+
+// ---- C16: what a sort comparator reads (robust to extract-function / inline rewrites)
+
+type pkgDecls struct {
+	funcs map[string]*ast.FuncDecl // package-level functions (no receiver)
+	vars  map[string]bool          // package-level variables
+}
+
+var pkgDeclCache = map[string]*pkgDecls{}
+
+func declsOfDir(dir string) *pkgDecls {
+	if d, ok := pkgDeclCache[dir]; ok {
+		return d
+	}
+	d := &pkgDecls{funcs: map[string]*ast.FuncDecl{}, vars: map[string]bool{}}
+	pkgDeclCache[dir] = d
+	ents, _ := os.ReadDir(dir)
+	for _, e := range ents {
+		n := e.Name()
+		if e.IsDir() || !strings.HasSuffix(n, ".go") || strings.HasSuffix(n, "_test.go") || strings.HasSuffix(n, "_verif.go") {
+			continue
+		}
+		f, err := parser.ParseFile(token.NewFileSet(), filepath.Join(dir, n), nil, 0)
+		if err != nil {
+			continue
+		}
+		for _, dc := range f.Decls {
+			switch x := dc.(type) {
+			case *ast.FuncDecl:
+				if x.Recv == nil && x.Body != nil {
+					d.funcs[x.Name.Name] = x
+				}
+			case *ast.GenDecl:
+				if x.Tok == token.VAR {
+					for _, sp := range x.Specs {
+						if vs, ok := sp.(*ast.ValueSpec); ok {
+							for _, id := range vs.Names {
+								d.vars[id.Name] = true
+							}
+						}
+					}
+				}
+			}
+		}
+	}
+	return d
+}
+
+// comparatorReads: the sorted set of variables that the comparator expression (a function literal, or the name of a
+// package-level function) mentions and that are declared outside it — captured locals of the enclosing function and
+// package-level variables — including those of every same-package function it calls statically, transitively.
+// Selector fields (x.f: only x counts), parameters and locals of the comparator and of the called functions do not count.
+func comparatorReads(dir string, cmp ast.Expr) []string {
+	decls := declsOfDir(dir)
+	seen := map[string]bool{}
+	visited := map[string]bool{}
+	var scan func(body ast.Node, lo, hi token.Pos, sameFile bool)
+	follow := func(name string) {
+		if fd, ok := decls.funcs[name]; ok && !visited[name] {
+			visited[name] = true
+			scan(fd, fd.Pos(), fd.End(), false)
+		}
+	}
+	scan = func(body ast.Node, lo, hi token.Pos, sameFile bool) {
+		var walk func(n ast.Node) bool
+		walk = func(n ast.Node) bool {
+			switch x := n.(type) {
+			case *ast.SelectorExpr:
+				ast.Inspect(x.X, walk)
+				return false
+			case *ast.KeyValueExpr:
+				if _, isIdent := x.Key.(*ast.Ident); !isIdent {
+					ast.Inspect(x.Key, walk)
+				}
+				ast.Inspect(x.Value, walk)
+				return false
+			case *ast.CallExpr:
+				if id, ok := x.Fun.(*ast.Ident); ok && (id.Obj == nil || id.Obj.Kind == ast.Fun) {
+					follow(id.Name)
+				}
+			case *ast.Ident:
+				switch {
+				case x.Name == "_":
+				case x.Obj != nil && x.Obj.Kind == ast.Var:
+					if p := x.Obj.Pos(); p < lo || p > hi {
+						// declared outside: a captured local (closure) or a package-level variable of this file
+						if sameFile || decls.vars[x.Name] {
+							seen[x.Name] = true
+						}
+					}
+				case x.Obj == nil && decls.vars[x.Name]:
+					seen[x.Name] = true // package-level variable of another file of the package
+				}
+			}
+			return true
+		}
+		ast.Inspect(body, walk)
+	}
+	switch c := cmp.(type) {
+	case *ast.FuncLit:
+		scan(c, c.Pos(), c.End(), true)
+	case *ast.Ident:
+		follow(c.Name)
+		if !visited[c.Name] {
+			seen["?"+c.Name] = true // a comparator that cannot be followed is pinned by name
+		}
+	default:
+		seen["?"+exprText(cmp)] = true
+	}
+	var out []string
+	for k := range seen {
+		out = append(out, k)
+	}
+	sort.Strings(out)
+	return out
 }
 
 // ---------------------------------------------------------------- C14: every accepted config change runs (and so autosaves)
